@@ -341,8 +341,8 @@ package codec
 //@   ensures [C02] atHead(src, i0, tag) ==> (seekK(src, i0, tag, d0) == 0 && seekTy(src, i0, tag, d0) == hdTy(src, i0) && seekP(src, i0, tag, d0) == hdNext(src, i0))
 //@   ensures [C04,C06] seekK(src, i0, tag, d0) == 0 ==> (result0 && result1 == seekTy(src, i0, tag, d0) && err == nil && b.buf.i == seekP(src, i0, tag, d0))
 //@   ensures [C04,C06] (seekK(src, i0, tag, d0) == 1 || seekK(src, i0, tag, d0) == 2) ==> (require ? err != nil : (!result0 && err == nil))
-//@   ensures [C04] (seekK(src, i0, tag, d0) == 1 && !require && seekCanon(src, i0, tag, d0)) ==> b.buf.i == seekP(src, i0, tag, d0)
-//@   ensures [C04] (seekK(src, i0, tag, d0) == 2 && !require) ==> b.buf.i == seekP(src, i0, tag, d0)
+//@   ensures [C04,C06] (seekK(src, i0, tag, d0) == 1 && !require && seekCanon(src, i0, tag, d0)) ==> b.buf.i == seekP(src, i0, tag, d0)
+//@   ensures [C04,C06] (seekK(src, i0, tag, d0) == 2 && !require) ==> b.buf.i == seekP(src, i0, tag, d0)
 //@   ensures [C04,C05,C06] b.buf.i >= i0
 //@   loop 0 invariant [C04,C05,C06] validR(b) && b.buf.i >= i0
 //@   loop 0 invariant b.depth == old(b.depth)
@@ -364,7 +364,7 @@ package codec
 //@   ensures [C04,C06] (seekK(src, i0, tag, d0) == 0 && seekTy(src, i0, tag, d0) == ty) ==> (result0 && err == nil && b.buf.i == seekP(src, i0, tag, d0))
 //@   ensures [C06] (seekK(src, i0, tag, d0) == 0 && seekTy(src, i0, tag, d0) != ty) ==> err != nil
 //@   ensures [C04,C06] (seekK(src, i0, tag, d0) == 1 || seekK(src, i0, tag, d0) == 2) ==> (require ? err != nil : (!result0 && err == nil))
-//@   ensures [C04] (seekK(src, i0, tag, d0) == 1 && !require && seekCanon(src, i0, tag, d0)) ==> b.buf.i == seekP(src, i0, tag, d0)
+//@   ensures [C04,C06] (seekK(src, i0, tag, d0) == 1 && !require && seekCanon(src, i0, tag, d0)) ==> b.buf.i == seekP(src, i0, tag, d0)
 //@   ensures [C04,C05,C06] b.buf.i >= i0
 //@   safety [C05]
 //
@@ -383,8 +383,8 @@ package codec
 //@   ensures [C02] (atHead(src, i0, tag) && decIntK(src, i0, tag, require, 1, d0) == 0) ==> (err == nil && *data == decIntV(src, i0, tag, d0) && b.buf.i == decIntP(src, i0, tag, d0))
 //@   ensures [C04,C06] decIntK(src, i0, tag, require, 1, d0) == 0 ==> (err == nil && *data == decIntV(src, i0, tag, d0) && b.buf.i == decIntP(src, i0, tag, d0))
 //@   ensures [C04,C06] decIntK(src, i0, tag, require, 1, d0) == 1 ==> (err == nil && *data == old(*data))
-//@   ensures [C04] (decIntK(src, i0, tag, require, 1, d0) == 1 && seekK(src, i0, tag, d0) == 1 && seekCanon(src, i0, tag, d0)) ==> b.buf.i == seekP(src, i0, tag, d0)
-//@   ensures [C04] (decIntK(src, i0, tag, require, 1, d0) == 1 && seekK(src, i0, tag, d0) == 2) ==> b.buf.i == seekP(src, i0, tag, d0)
+//@   ensures [C04,C06] (decIntK(src, i0, tag, require, 1, d0) == 1 && seekK(src, i0, tag, d0) == 1 && seekCanon(src, i0, tag, d0)) ==> b.buf.i == seekP(src, i0, tag, d0)
+//@   ensures [C04,C06] (decIntK(src, i0, tag, require, 1, d0) == 1 && seekK(src, i0, tag, d0) == 2) ==> b.buf.i == seekP(src, i0, tag, d0)
 //@   ensures [C06] decIntK(src, i0, tag, require, 1, d0) == 2 ==> err != nil
 //@   ensures [C04,C05,C06] b.buf.i >= i0
 //@   decreases len(b.buf.src) - b.buf.i, 1
@@ -403,8 +403,8 @@ package codec
 //@   ensures [C02] (atHead(src, i0, tag) && decIntK(src, i0, tag, require, 2, d0) == 0) ==> (err == nil && *data == decIntV(src, i0, tag, d0) && b.buf.i == decIntP(src, i0, tag, d0))
 //@   ensures [C04,C06] decIntK(src, i0, tag, require, 2, d0) == 0 ==> (err == nil && *data == decIntV(src, i0, tag, d0) && b.buf.i == decIntP(src, i0, tag, d0))
 //@   ensures [C04,C06] decIntK(src, i0, tag, require, 2, d0) == 1 ==> (err == nil && *data == old(*data))
-//@   ensures [C04] (decIntK(src, i0, tag, require, 2, d0) == 1 && seekK(src, i0, tag, d0) == 1 && seekCanon(src, i0, tag, d0)) ==> b.buf.i == seekP(src, i0, tag, d0)
-//@   ensures [C04] (decIntK(src, i0, tag, require, 2, d0) == 1 && seekK(src, i0, tag, d0) == 2) ==> b.buf.i == seekP(src, i0, tag, d0)
+//@   ensures [C04,C06] (decIntK(src, i0, tag, require, 2, d0) == 1 && seekK(src, i0, tag, d0) == 1 && seekCanon(src, i0, tag, d0)) ==> b.buf.i == seekP(src, i0, tag, d0)
+//@   ensures [C04,C06] (decIntK(src, i0, tag, require, 2, d0) == 1 && seekK(src, i0, tag, d0) == 2) ==> b.buf.i == seekP(src, i0, tag, d0)
 //@   ensures [C06] decIntK(src, i0, tag, require, 2, d0) == 2 ==> err != nil
 //@   ensures [C04,C05,C06] b.buf.i >= i0
 //@   decreases len(b.buf.src) - b.buf.i, 1
@@ -423,8 +423,8 @@ package codec
 //@   ensures [C02] (atHead(src, i0, tag) && decIntK(src, i0, tag, require, 4, d0) == 0) ==> (err == nil && *data == decIntV(src, i0, tag, d0) && b.buf.i == decIntP(src, i0, tag, d0))
 //@   ensures [C04,C06] decIntK(src, i0, tag, require, 4, d0) == 0 ==> (err == nil && *data == decIntV(src, i0, tag, d0) && b.buf.i == decIntP(src, i0, tag, d0))
 //@   ensures [C04,C06] decIntK(src, i0, tag, require, 4, d0) == 1 ==> (err == nil && *data == old(*data))
-//@   ensures [C04] (decIntK(src, i0, tag, require, 4, d0) == 1 && seekK(src, i0, tag, d0) == 1 && seekCanon(src, i0, tag, d0)) ==> b.buf.i == seekP(src, i0, tag, d0)
-//@   ensures [C04] (decIntK(src, i0, tag, require, 4, d0) == 1 && seekK(src, i0, tag, d0) == 2) ==> b.buf.i == seekP(src, i0, tag, d0)
+//@   ensures [C04,C06] (decIntK(src, i0, tag, require, 4, d0) == 1 && seekK(src, i0, tag, d0) == 1 && seekCanon(src, i0, tag, d0)) ==> b.buf.i == seekP(src, i0, tag, d0)
+//@   ensures [C04,C06] (decIntK(src, i0, tag, require, 4, d0) == 1 && seekK(src, i0, tag, d0) == 2) ==> b.buf.i == seekP(src, i0, tag, d0)
 //@   ensures [C06] decIntK(src, i0, tag, require, 4, d0) == 2 ==> err != nil
 //@   ensures [C04,C05,C06] b.buf.i >= i0
 //@   decreases len(b.buf.src) - b.buf.i, 1
@@ -443,8 +443,8 @@ package codec
 //@   ensures [C02] (atHead(src, i0, tag) && decIntK(src, i0, tag, require, 8, d0) == 0) ==> (err == nil && *data == decIntV(src, i0, tag, d0) && b.buf.i == decIntP(src, i0, tag, d0))
 //@   ensures [C04,C06] decIntK(src, i0, tag, require, 8, d0) == 0 ==> (err == nil && *data == decIntV(src, i0, tag, d0) && b.buf.i == decIntP(src, i0, tag, d0))
 //@   ensures [C04,C06] decIntK(src, i0, tag, require, 8, d0) == 1 ==> (err == nil && *data == old(*data))
-//@   ensures [C04] (decIntK(src, i0, tag, require, 8, d0) == 1 && seekK(src, i0, tag, d0) == 1 && seekCanon(src, i0, tag, d0)) ==> b.buf.i == seekP(src, i0, tag, d0)
-//@   ensures [C04] (decIntK(src, i0, tag, require, 8, d0) == 1 && seekK(src, i0, tag, d0) == 2) ==> b.buf.i == seekP(src, i0, tag, d0)
+//@   ensures [C04,C06] (decIntK(src, i0, tag, require, 8, d0) == 1 && seekK(src, i0, tag, d0) == 1 && seekCanon(src, i0, tag, d0)) ==> b.buf.i == seekP(src, i0, tag, d0)
+//@   ensures [C04,C06] (decIntK(src, i0, tag, require, 8, d0) == 1 && seekK(src, i0, tag, d0) == 2) ==> b.buf.i == seekP(src, i0, tag, d0)
 //@   ensures [C06] decIntK(src, i0, tag, require, 8, d0) == 2 ==> err != nil
 //@   ensures [C04,C05,C06] b.buf.i >= i0
 //@   decreases len(b.buf.src) - b.buf.i, 1
@@ -463,8 +463,8 @@ package codec
 //@   ensures [C02] (atHead(src, i0, tag) && decIntK(src, i0, tag, require, 2, d0) == 0) ==> (err == nil && *data == u8(decIntV(src, i0, tag, d0)) && b.buf.i == decIntP(src, i0, tag, d0))
 //@   ensures [C04,C06] decIntK(src, i0, tag, require, 2, d0) == 0 ==> (err == nil && *data == u8(decIntV(src, i0, tag, d0)) && b.buf.i == decIntP(src, i0, tag, d0))
 //@   ensures [C04,C06] decIntK(src, i0, tag, require, 2, d0) == 1 ==> (err == nil && *data == old(*data))
-//@   ensures [C04] (decIntK(src, i0, tag, require, 2, d0) == 1 && seekK(src, i0, tag, d0) == 1 && seekCanon(src, i0, tag, d0)) ==> b.buf.i == seekP(src, i0, tag, d0)
-//@   ensures [C04] (decIntK(src, i0, tag, require, 2, d0) == 1 && seekK(src, i0, tag, d0) == 2) ==> b.buf.i == seekP(src, i0, tag, d0)
+//@   ensures [C04,C06] (decIntK(src, i0, tag, require, 2, d0) == 1 && seekK(src, i0, tag, d0) == 1 && seekCanon(src, i0, tag, d0)) ==> b.buf.i == seekP(src, i0, tag, d0)
+//@   ensures [C04,C06] (decIntK(src, i0, tag, require, 2, d0) == 1 && seekK(src, i0, tag, d0) == 2) ==> b.buf.i == seekP(src, i0, tag, d0)
 //@   ensures [C06] decIntK(src, i0, tag, require, 2, d0) == 2 ==> err != nil
 //@   ensures [C04,C05,C06] b.buf.i >= i0
 //@   safety [C05]
@@ -482,8 +482,8 @@ package codec
 //@   ensures [C02] (atHead(src, i0, tag) && decIntK(src, i0, tag, require, 4, d0) == 0) ==> (err == nil && *data == u16(decIntV(src, i0, tag, d0)) && b.buf.i == decIntP(src, i0, tag, d0))
 //@   ensures [C04,C06] decIntK(src, i0, tag, require, 4, d0) == 0 ==> (err == nil && *data == u16(decIntV(src, i0, tag, d0)) && b.buf.i == decIntP(src, i0, tag, d0))
 //@   ensures [C04,C06] decIntK(src, i0, tag, require, 4, d0) == 1 ==> (err == nil && *data == old(*data))
-//@   ensures [C04] (decIntK(src, i0, tag, require, 4, d0) == 1 && seekK(src, i0, tag, d0) == 1 && seekCanon(src, i0, tag, d0)) ==> b.buf.i == seekP(src, i0, tag, d0)
-//@   ensures [C04] (decIntK(src, i0, tag, require, 4, d0) == 1 && seekK(src, i0, tag, d0) == 2) ==> b.buf.i == seekP(src, i0, tag, d0)
+//@   ensures [C04,C06] (decIntK(src, i0, tag, require, 4, d0) == 1 && seekK(src, i0, tag, d0) == 1 && seekCanon(src, i0, tag, d0)) ==> b.buf.i == seekP(src, i0, tag, d0)
+//@   ensures [C04,C06] (decIntK(src, i0, tag, require, 4, d0) == 1 && seekK(src, i0, tag, d0) == 2) ==> b.buf.i == seekP(src, i0, tag, d0)
 //@   ensures [C06] decIntK(src, i0, tag, require, 4, d0) == 2 ==> err != nil
 //@   ensures [C04,C05,C06] b.buf.i >= i0
 //@   safety [C05]
@@ -501,8 +501,8 @@ package codec
 //@   ensures [C02] (atHead(src, i0, tag) && decIntK(src, i0, tag, require, 8, d0) == 0) ==> (err == nil && *data == u32(decIntV(src, i0, tag, d0)) && b.buf.i == decIntP(src, i0, tag, d0))
 //@   ensures [C04,C06] decIntK(src, i0, tag, require, 8, d0) == 0 ==> (err == nil && *data == u32(decIntV(src, i0, tag, d0)) && b.buf.i == decIntP(src, i0, tag, d0))
 //@   ensures [C04,C06] decIntK(src, i0, tag, require, 8, d0) == 1 ==> (err == nil && *data == old(*data))
-//@   ensures [C04] (decIntK(src, i0, tag, require, 8, d0) == 1 && seekK(src, i0, tag, d0) == 1 && seekCanon(src, i0, tag, d0)) ==> b.buf.i == seekP(src, i0, tag, d0)
-//@   ensures [C04] (decIntK(src, i0, tag, require, 8, d0) == 1 && seekK(src, i0, tag, d0) == 2) ==> b.buf.i == seekP(src, i0, tag, d0)
+//@   ensures [C04,C06] (decIntK(src, i0, tag, require, 8, d0) == 1 && seekK(src, i0, tag, d0) == 1 && seekCanon(src, i0, tag, d0)) ==> b.buf.i == seekP(src, i0, tag, d0)
+//@   ensures [C04,C06] (decIntK(src, i0, tag, require, 8, d0) == 1 && seekK(src, i0, tag, d0) == 2) ==> b.buf.i == seekP(src, i0, tag, d0)
 //@   ensures [C06] decIntK(src, i0, tag, require, 8, d0) == 2 ==> err != nil
 //@   ensures [C04,C05,C06] b.buf.i >= i0
 //@   safety [C05]
@@ -520,8 +520,8 @@ package codec
 //@   ensures [C02] (atHead(src, i0, tag) && decIntK(src, i0, tag, require, 1, d0) == 0) ==> (err == nil && *data == (decIntV(src, i0, tag, d0) != 0) && b.buf.i == decIntP(src, i0, tag, d0))
 //@   ensures [C04,C06] decIntK(src, i0, tag, require, 1, d0) == 0 ==> (err == nil && *data == (decIntV(src, i0, tag, d0) != 0) && b.buf.i == decIntP(src, i0, tag, d0))
 //@   ensures [C04,C06] decIntK(src, i0, tag, require, 1, d0) == 1 ==> (err == nil && *data == old(*data))
-//@   ensures [C04] (decIntK(src, i0, tag, require, 1, d0) == 1 && seekK(src, i0, tag, d0) == 1 && seekCanon(src, i0, tag, d0)) ==> b.buf.i == seekP(src, i0, tag, d0)
-//@   ensures [C04] (decIntK(src, i0, tag, require, 1, d0) == 1 && seekK(src, i0, tag, d0) == 2) ==> b.buf.i == seekP(src, i0, tag, d0)
+//@   ensures [C04,C06] (decIntK(src, i0, tag, require, 1, d0) == 1 && seekK(src, i0, tag, d0) == 1 && seekCanon(src, i0, tag, d0)) ==> b.buf.i == seekP(src, i0, tag, d0)
+//@   ensures [C04,C06] (decIntK(src, i0, tag, require, 1, d0) == 1 && seekK(src, i0, tag, d0) == 2) ==> b.buf.i == seekP(src, i0, tag, d0)
 //@   ensures [C06] decIntK(src, i0, tag, require, 1, d0) == 2 ==> err != nil
 //@   ensures [C04,C05,C06] b.buf.i >= i0
 //@   safety [C05]
@@ -539,8 +539,8 @@ package codec
 //@   ensures [C02] (atHead(src, i0, tag) && decF32K(src, i0, tag, require, d0) == 0) ==> (err == nil && *data == decF32V(src, i0, tag, d0) && b.buf.i == decIntP(src, i0, tag, d0))
 //@   ensures [C04,C06] decF32K(src, i0, tag, require, d0) == 0 ==> (err == nil && *data == decF32V(src, i0, tag, d0) && b.buf.i == decIntP(src, i0, tag, d0))
 //@   ensures [C04,C06] decF32K(src, i0, tag, require, d0) == 1 ==> (err == nil && *data == old(*data))
-//@   ensures [C04] (decF32K(src, i0, tag, require, d0) == 1 && seekK(src, i0, tag, d0) == 1 && seekCanon(src, i0, tag, d0)) ==> b.buf.i == seekP(src, i0, tag, d0)
-//@   ensures [C04] (decF32K(src, i0, tag, require, d0) == 1 && seekK(src, i0, tag, d0) == 2) ==> b.buf.i == seekP(src, i0, tag, d0)
+//@   ensures [C04,C06] (decF32K(src, i0, tag, require, d0) == 1 && seekK(src, i0, tag, d0) == 1 && seekCanon(src, i0, tag, d0)) ==> b.buf.i == seekP(src, i0, tag, d0)
+//@   ensures [C04,C06] (decF32K(src, i0, tag, require, d0) == 1 && seekK(src, i0, tag, d0) == 2) ==> b.buf.i == seekP(src, i0, tag, d0)
 //@   ensures [C06] decF32K(src, i0, tag, require, d0) == 2 ==> err != nil
 //@   ensures [C04,C05,C06] b.buf.i >= i0
 //@   safety [C05]
@@ -558,8 +558,8 @@ package codec
 //@   ensures [C02] (atHead(src, i0, tag) && decF64K(src, i0, tag, require, d0) == 0) ==> (err == nil && *data == decF64V(src, i0, tag, d0) && b.buf.i == decIntP(src, i0, tag, d0))
 //@   ensures [C04,C06] decF64K(src, i0, tag, require, d0) == 0 ==> (err == nil && *data == decF64V(src, i0, tag, d0) && b.buf.i == decIntP(src, i0, tag, d0))
 //@   ensures [C04,C06] decF64K(src, i0, tag, require, d0) == 1 ==> (err == nil && *data == old(*data))
-//@   ensures [C04] (decF64K(src, i0, tag, require, d0) == 1 && seekK(src, i0, tag, d0) == 1 && seekCanon(src, i0, tag, d0)) ==> b.buf.i == seekP(src, i0, tag, d0)
-//@   ensures [C04] (decF64K(src, i0, tag, require, d0) == 1 && seekK(src, i0, tag, d0) == 2) ==> b.buf.i == seekP(src, i0, tag, d0)
+//@   ensures [C04,C06] (decF64K(src, i0, tag, require, d0) == 1 && seekK(src, i0, tag, d0) == 1 && seekCanon(src, i0, tag, d0)) ==> b.buf.i == seekP(src, i0, tag, d0)
+//@   ensures [C04,C06] (decF64K(src, i0, tag, require, d0) == 1 && seekK(src, i0, tag, d0) == 2) ==> b.buf.i == seekP(src, i0, tag, d0)
 //@   ensures [C06] decF64K(src, i0, tag, require, d0) == 2 ==> err != nil
 //@   ensures [C04,C05,C06] b.buf.i >= i0
 //@   safety [C05]
@@ -577,8 +577,8 @@ package codec
 //@   ensures [C02] (atHead(src, i0, tag) && decStrK(src, i0, tag, require, d0) == 0) ==> (err == nil && *data == decStrV(src, i0, tag, d0) && b.buf.i == decStrP(src, i0, tag, d0))
 //@   ensures [C04,C06] decStrK(src, i0, tag, require, d0) == 0 ==> (err == nil && *data == decStrV(src, i0, tag, d0) && b.buf.i == decStrP(src, i0, tag, d0))
 //@   ensures [C04,C06] decStrK(src, i0, tag, require, d0) == 1 ==> (err == nil && *data == old(*data))
-//@   ensures [C04] (decStrK(src, i0, tag, require, d0) == 1 && seekK(src, i0, tag, d0) == 1 && seekCanon(src, i0, tag, d0)) ==> b.buf.i == seekP(src, i0, tag, d0)
-//@   ensures [C04] (decStrK(src, i0, tag, require, d0) == 1 && seekK(src, i0, tag, d0) == 2) ==> b.buf.i == seekP(src, i0, tag, d0)
+//@   ensures [C04,C06] (decStrK(src, i0, tag, require, d0) == 1 && seekK(src, i0, tag, d0) == 1 && seekCanon(src, i0, tag, d0)) ==> b.buf.i == seekP(src, i0, tag, d0)
+//@   ensures [C04,C06] (decStrK(src, i0, tag, require, d0) == 1 && seekK(src, i0, tag, d0) == 2) ==> b.buf.i == seekP(src, i0, tag, d0)
 //@   ensures [C06] decStrK(src, i0, tag, require, d0) == 2 ==> err != nil
 //@   ensures [C04,C05,C06] b.buf.i >= i0
 //@   safety [C05]
